@@ -37,6 +37,63 @@ def rng_src(seen):
     return f
 
 
+def r07_7(prog, rep):
+    """"no plaintext": the set of enabled layers is the caller's choice. Inside the library nothing rewrites it: the field is stored only by its three setters
+    (and constructions), and library code calls `set_layers` only with a value that keeps what was enabled (`layers_enabled | X`), `disable_layer` never with
+    ENCRYPT. (A convenience like "setting a compression level implies the compression layer" written with set_layers silently drops ENCRYPT.)"""
+    mla = prog.crates['mla']
+    OWN = 'config::ArchiveWriterConfig'
+    setters = {'enable_layer', 'disable_layer', 'set_layers'}
+    defs = [b for b in mla.bodies if b.impl_adt == OWN and b.name in setters and b.kind != 'Closure']
+    rep.floor('R07.7', len(defs), 3, 'layer setters of ArchiveWriterConfig')
+    n = 0
+    for body in mla.bodies:
+        # direct stores to the field outside the setters
+        if not (body.impl_adt == OWN and body.name in setters):
+            for bl in body.blocks:
+                if bl.cleanup:
+                    continue
+                for i, st in enumerate(bl.stmts):
+                    if st.kind == 'assign' and st.place[1]:
+                        last = st.place[1][-1]
+                        if last[0] == 'f' and last[2] == 'layers_enabled' and strip_generics(str(last[3])) == OWN:
+                            n += 1
+                            rep.ob('R07.7', False, 'R07.7|%s|store:layers_enabled|outside-setters' % body.nkey,
+                                   'the enabled-layer set of the writer configuration is overwritten outside enable_layer / disable_layer / set_layers', body.loc(bl.idx, i))
+        for b in body.calls():
+            cn = cnorm(b.term)
+            if cn == OWN + '::set_layers' and len(b.term.args) == 2:
+                n += 1
+                rep.fn(body)
+                a = b.term.args[1]
+                keeps = False
+                if a.place is not None:
+                    o = origins(body, [a.place[0]])
+                    reads_old = any(f and f[-1] == 'layers_enabled' for f in o.fields)
+                    ops_ = {body.blocks[c].term.cmethod for c in o.calls}
+                    keeps = reads_old and ops_ <= {'bitor', 'union', 'clone', 'deref', 'from_bits_retain', 'bits', 'from_bits_truncate'} and bool(ops_ & {'bitor', 'union'})
+                rep.ob('R07.7', keeps, 'R07.7|%s|set_layers|keeps-enabled-layers' % body.nkey, 'library call of set_layers keeps the layers already enabled' if keeps else
+                       'library code replaces the caller\'s layer set through set_layers(%s): a configuration with ENCRYPT enabled silently loses it and the archive is written in clear'
+                       % census_describe(body, a), body.loc(b.idx))
+            elif cn == OWN + '::disable_layer' and len(b.term.args) == 2:
+                n += 1
+                rep.fn(body)
+                a = b.term.args[1]
+                ok = a.kind == 'const' and (a.k.get('def') or '').endswith('::COMPRESS')
+                rep.ob('R07.7', ok, 'R07.7|%s|disable_layer|not-encrypt' % body.nkey, 'library call of disable_layer on the compression layer only' if ok else
+                       'library code disables a layer that may be ENCRYPT', body.loc(b.idx))
+    if n == 0:
+        rep.ob('R07.7', True, 'R07.7|mla|layer-set-only-through-setters', 'no library function rewrites the enabled-layer set of a writer configuration', '-')
+
+
+def census_describe(body, op):
+    from .. import census
+    try:
+        return census.describe(body, op, 1)
+    except Exception:
+        return '?'
+
+
 def run(prog, rep, tier):
     mla = prog.crates['mla']
     # ---------------- R07.1 key / nonce provenance
@@ -323,6 +380,9 @@ def run(prog, rep, tier):
                     rep.ob('R07.6', okc, 'R07.6|%s|ecc_keys-assigned|recipients-only-added' % body.nkey, 'recipient list initialised empty' if okc else
                            'the recipient list is overwritten: recipients registered earlier are dropped', body.loc(bl.idx, i))
     rep.floor('R07.6', nrec, 1, 'mutations of the recipient list')
+
+    # ---------------- R07.7 the library never rewrites the caller's layer set
+    r07_7(prog, rep)
 
     # ---------------- R07.5 only a recipient key opens it
     lp = one_body(prog, rep, 'R07.5', 'mla', adt='layers::encrypt::EncryptionReaderConfig', name='load_persistent')
